@@ -28,8 +28,9 @@ ASSUMPTIONS = [
 
 ATOMS_FULL = [["disp", "str"], ["disp", "list"], ["disp", "tag"], ["disp", "none"], ["disp", "ellipsis"],
               ["disp", "repr"], ["disp", "set"], ["disp", "dict"], ["raise"], ["reenter", "self"],
-              ["reenter", "outer"]]
-ATOMS_RED = [["disp", "str"], ["disp", "set"], ["raise"], ["reenter", "outer"], ["disp", "repr"]]
+              ["reenter", "outer"], ["disp", "xr"], ["disp", "dep"], ["inspect-active"]]
+ATOMS_RED = [["disp", "str"], ["disp", "set"], ["raise"], ["reenter", "outer"], ["disp", "repr"],
+             ["inspect-active"]]
 
 
 class Boom(Exception):
@@ -62,10 +63,12 @@ class Run:
 
 
 def make_value(kind):
-    from htmltools import Tag
-    from ..spec import Repr
+    from htmltools import HTMLDependency, Tag
+    from ..spec import Repr, TagifRepr
     return {"str": "s<", "list": ["l", 1, None, ("m",)], "tag": Tag("span", "x"), "none": None,
-            "ellipsis": ..., "repr": Repr("<u>r</u>"), "set": {1}, "dict": {"a": 1}}[kind]
+            "ellipsis": ..., "repr": Repr("<u>r</u>"), "set": {1}, "dict": {"a": 1},
+            "xr": TagifRepr(["E", "b", False, [], [["T", "exp"]]], "<REPR/>"),
+            "dep": HTMLDependency("shown", "1.0", script={"src": "s.js"})}[kind]
 
 
 def model_children_for(value, kind):
@@ -76,8 +79,8 @@ def model_children_for(value, kind):
         return [("str", "s<")]
     if kind == "list":
         return [("str", "l"), ("str", "1"), ("str", "m")]
-    if kind == "tag":
-        return [("obj", id(value))]
+    if kind in ("tag", "xr", "dep"):
+        return [("obj", id(value))]      # tags, tagifiable objects and metadata nodes are kept as they are
     if kind == "repr":
         return [("HTML", "<u>r</u>")]
     return None   # invalid -> TypeError
@@ -113,6 +116,18 @@ def run_body(body, stack, R: Run):
             else:
                 R.exp_rec.append(("val", repr(v)))
                 sys.displayhook(v)
+        elif k == "inspect-active":
+            # read-only operations on the tag whose block is active must not disturb the hook chain
+            if stack:
+                import copy as _copy
+                before = sys.displayhook
+                t = stack[-1]
+                str(t)
+                _copy.copy(t)
+                t.tagify()
+                t.render()
+                if sys.displayhook is not before:
+                    raise Viol("inspect:hook-changed", "rendering / copying the active tag changed sys.displayhook")
         elif k == "raise":
             R.expected_fault = "Boom"
             R.n_effects += 1
@@ -187,12 +202,29 @@ def run_block(tag, body, stack, R: Run):
             R.exp_rec.append(("tag", id(tag)))
 
 
-def run_program(prog):
+class FalsyHook(list):
+    """a callable hook object that is falsy (an empty list subclass): a legitimate displayhook."""
+
+    def __init__(self, fn):
+        super().__init__()
+        self.fn = fn
+
+    def __call__(self, v):
+        self.fn(v)
+
+    def __eq__(self, other):
+        return self is other
+
+    __hash__ = None
+
+
+def run_program(prog, falsy_hook=False):
     R = Run()
 
-    def rec_hook(v):
+    def rec_fn(v):
         from htmltools import Tag
         R.rec.append(("tag", id(v)) if isinstance(v, Tag) and id(v) in R.tags else ("val", repr(v)))
+    rec_hook = FalsyHook(rec_fn) if falsy_hook else rec_fn
 
     saved = sys.displayhook
     sys.displayhook = rec_hook
@@ -233,6 +265,12 @@ def fn(prog):
     return (R.n_events >= 2 and R.n_effects >= 1, sig, R.viols, 1)
 
 
+def fn_falsy(prog):
+    R = run_program(prog, falsy_hook=True)
+    sig = (len(R.tags), len(R.rec), R.expected_fault)
+    return (R.n_events >= 2 and R.n_effects >= 1, sig, [(k + ":falsy-outer-hook", m, d) for k, m, d in R.viols], 1)
+
+
 def bodies(atoms, lens):
     """lens[0] = max body length at this level; deeper levels follow."""
     if len(lens) == 1:
@@ -263,4 +301,6 @@ def plan(tier):
     top_ev = Alt(Const(top_atoms), Map(inner, lambda b: ["block", b]), Map(inner, lambda b: ["tryblock", b]))
     out.append(dict(kind="space", name="top-level-sequences", fn=fn, space=Seq(top_ev, 0, 3),
                     note="sequences of <= 3 top-level events (blocks, try-blocks, displays, sequential re-use)"))
+    out.append(dict(kind="space", name="falsy-outer-hook", fn=fn_falsy, space=Seq(top_ev, 0, 2),
+                    note="sequences of <= 2 top-level events with a falsy callable object as the outermost hook"))
     return out
